@@ -79,6 +79,29 @@ def f(c):
             'original %r (the variable is missing from the defined-on-entry set, so it is reset to Undefined)' % (got, want))
 
 
+@witness('D18-except-name-not-reserved', ['C11'])
+def d18():
+  import malt
+  m = _load('''
+def f(fscope):
+  for i in range(2):
+    try:
+      if i:
+        raise ValueError(0)
+    except ValueError as fscope_1:
+      fscope = type(fscope_1).__name__
+  return fscope
+''', 'd18')
+  want = m.f(0)
+  try:
+    got = malt.to_graph(m.f)(0)
+  except Exception as e:
+    got = type(e).__name__
+  if got != want:
+    return ('the name bound by `except E as name` is isolated from the enclosing scope and therefore not reserved: '
+            'a generated symbol (fscope_1) coincides with it: converted gives %r, original %r' % (got, want))
+
+
 def main():
   prop = sys.argv[1]
   failing, run = [], 0
